@@ -181,8 +181,27 @@ def term(s):
     return "mk %s %s Eof %d %s %d %s %s" % (cfg, flt, s["rc"], str(s["crash"]).lower(), s["cause"], str(s["tty"]).lower(), str(s["termios_same"]).lower())
 
 
+def startorder_obligation(run):
+    oks, gen, slog = vlib.run_translator(run, "startorder")
+    run.checker_cmds.append("translator/startorder (go/parser over /repo/curlrevshell.go) -> GenStart.v ; coqc GenDepC20.v (startup_order_matches, no abrupt exit after opshell.New)")
+    if not oks:
+        run.oblige("translator startorder ran on /repo's working tree", False, slog[-2000:])
+        return
+    open(os.path.join(run.rundir, "GenStart.v"), "w").write(gen)
+    open(os.path.join(run.rundir, "GenDepC20.v"), "w").write(
+        "From Coq Require Import List String.\nFrom CRS Require Import Lib.Bytes Model.Startup Props.C20.\nFrom Gen Require Import GenStart.\n"
+        "Theorem c20_tree_startup_order : rmain_found = 1%nat /\\ abrupt_exits_after_terminal_setup = 0%nat /\\ startup_order_matches startup_order = true.\n"
+        "Proof. vm_compute. repeat split; reflexivity. Qed.\nPrint Assumptions c20_tree_startup_order.\n")
+    rc1, o1, e1 = vlib.coqc("GenStart.v", run.rundir, extra_q=[(run.rundir, "Gen")])
+    rc2, o2, e2 = vlib.coqc("GenDepC20.v", run.rundir, extra_q=[(run.rundir, "Gen")]) if rc1 == 0 else (1, "", "")
+    run.oblige("per-run obligation c20_tree_startup_order: rmain of the working tree goes through its start-up steps in the order Model/Startup.rmain checks "
+               "their faults (template exit, log file, Ctrl+I exit, terminal, deferred cleanup, HTTPS service) and never ends the process abruptly "
+               "(log.Fatal*, os.Exit, panic) once the terminal has been set up", rc1 == 0 and rc2 == 0, (gen + o1 + e1 + o2 + e2)[-2500:])
+
+
 def check(run):
     vlib.static_obligations(run)
+    startorder_obligation(run)
     binp = os.path.join(run.rundir, "curlrevshell")
     rc, o, e = vlib.sh(["go", "build", "-o", binp, "."], cwd=vlib.REPO, env=vlib.GOENV, timeout=600)
     run.checker_cmds.append("go build -o curlrevshell /repo ; each scenario runs the real binary under a fresh pty (or without a controlling terminal), termios read before and after")
